@@ -1,4 +1,5 @@
-// vsched is the C08 binary; it must be built with the overlay produced by cmd/mkoverlay.
+// vsched is the scheduler binary (C08's check, and the pairing-handler exploration that the C02 and C03 checks
+// run as a subprocess); it must be built with the overlay produced by cmd/mkoverlay.
 package main
 
 import (
@@ -6,11 +7,16 @@ import (
 
 	"verif/internal/c08"
 	"verif/internal/fw"
+	"verif/internal/psched"
 )
 
 func main() {
 	if len(os.Args) > 1 && os.Args[1] == "freerun" {
 		c08.FreeRun()
+		return
+	}
+	if len(os.Args) > 1 && (os.Args[1] == "pairsched" || os.Args[1] == "pairsched-replay") {
+		psched.Main(os.Args[1:])
 		return
 	}
 	fw.Main()
